@@ -69,6 +69,7 @@ def cases(tier, seed):
         for kind in ('plain', 'am', 'fm'):
             for m in METHODS:
                 yield ('struct3d', (N, 3, kind), m, 128.0, seed)
+                yield ('typed', (N, 2, kind), m, 128.0, seed)
     for N in b['acc_N'][:1]:
         for m in METHODS:
             for sp in ('None', '3'):
@@ -93,7 +94,7 @@ def decode_case(c):
 
 
 def check_case(case):
-    return {'trip': check_trip, 'struct': check_struct, 'acc': check_acc, 'struct3d': check_struct3d}[case[0]](case)
+    return {'trip': check_trip, 'struct': check_struct, 'acc': check_acc, 'struct3d': check_struct3d, 'typed': check_typed}[case[0]](case)
 
 
 def check_trip(case):
@@ -203,6 +204,49 @@ def check_struct(case):
     return Outcome(cls='struct', transitions=trans, viols=viols, nontrivial=ncol > 1)
 
 
+def check_typed(case):
+    """Integer- and float32-typed IMFs (e.g. raw ADC counts): same answer as for the float64 array of the same values."""
+    from emd.spectra import frequency_transform
+    from emd.utils import amplitude_normalise
+    _, name, m, sr, seed = case
+    Xf = np.round(struct_signal(name, seed) * 50.0)
+    viols = []
+    trans = 0
+    tag = 'signal %r (rounded to whole numbers) method=%s' % (name, m)
+    try:
+        ref = [np.asarray(a) for a in frequency_transform(Xf.copy(), sr, m)]
+    except Exception as e:
+        return Outcome(cls='typed', viols=[('typed:raise:%s' % type(e).__name__, '%s float64 raised %r' % (tag, e))])
+    for dt, tol in ((np.int64, 1e-9), (np.int16, 1e-9), (np.float32, 1e-4)):
+        try:
+            got = [np.asarray(a) for a in frequency_transform(Xf.astype(dt), sr, m)]
+        except Exception as e:
+            viols.append(('typed:raise:%s' % type(e).__name__, '%s dtype %s raised %r' % (tag, np.dtype(dt).name, e)))
+            continue
+        trans += 1
+        for nm_, a, b in zip(('phase', 'frequency', 'amplitude'), got, ref):
+            scale = max(1.0, float(np.max(np.abs(b))))
+            scale = max(1.0, float(np.nanmax(np.abs(b)))) if np.isfinite(b).any() else 1.0
+            dphi = np.abs(np.angle(np.exp(1j * (a - b)))) if nm_ == 'phase' else np.abs(a - b)
+            both_nan = np.isnan(a) & np.isnan(b)        # e.g. no envelope for a flat-topped column, in both runs
+            dphi = np.where(both_nan, 0.0, dphi)
+            if a.shape != b.shape or not np.max(dphi) <= tol * scale:
+                viols.append(('typed:%s' % ('integer' if np.dtype(dt).kind == 'i' else 'float32'),
+                              '%s: %s for dtype %s differs from the float64 result by %.3g' % (tag, nm_, np.dtype(dt).name, np.max(dphi))))
+                break
+    if m == 'nht':
+        try:
+            a = np.asarray(amplitude_normalise(Xf.astype(np.int64)))
+            b = np.asarray(amplitude_normalise(Xf.copy()))
+            trans += 1
+            if a.shape != b.shape or not np.allclose(a, b, rtol=0, atol=1e-9):
+                viols.append(('typed:normalise-integer', '%s: amplitude_normalise of the int64 array differs from the float64 result by %.3g' % (
+                    tag, np.max(np.abs(a - b)))))
+        except Exception as e:
+            viols.append(('typed:raise:%s' % type(e).__name__, '%s amplitude_normalise(int64) raised %r' % (tag, e)))
+    return Outcome(cls='typed', transitions=trans, viols=viols, nontrivial=True)
+
+
 def check_struct3d(case):
     """Second-level IMFs come as [samples x imfs x imfs2]: same shape out, and every 2-d slice is transformed as if alone."""
     from emd.spectra import frequency_transform
@@ -286,6 +330,6 @@ def snippet(case, kind):
 
 
 def nonvacuity(rep, ctx):
-    if not {'trip', 'struct', 'acc', 'struct3d'} <= set(rep.classes):
+    if not {'trip', 'struct', 'acc', 'struct3d', 'typed'} <= set(rep.classes):
         return ['vacuous: outcome classes %r' % dict(rep.classes)]
     return []
